@@ -174,6 +174,9 @@ func init() {
 			p := m.W.DB.pred(name, arity, false)
 			if p == nil {
 				// ISO: retractall on an unknown procedure creates it as dynamic.
+				if m.W.StrictDB {
+					Unsupported("retractall of a procedure that does not exist")
+				}
 				m.W.DB.pred(name, arity, true)
 				return true
 			}
